@@ -68,6 +68,15 @@ pub fn default_framing() -> Framing {
     }
 }
 
+static KEEP_ALIVE: AtomicBool = AtomicBool::new(false);
+
+/// When on, the server keeps HTTP/1.1 connections open and serves any number of requests on each
+/// (as S3 does); a connection is then handled on its own thread. Close-delimited framing is replaced
+/// by Content-Length while it is on.
+pub fn set_keep_alive(on: bool) {
+    KEEP_ALIVE.store(on, Ordering::SeqCst);
+}
+
 pub const FRAMINGS: [Framing; 4] = [Framing::Length, Framing::Chunked(1000), Framing::Chunked(7), Framing::Close];
 
 impl Response {
@@ -174,21 +183,33 @@ fn reason(status: u16) -> &'static str {
 
 fn serve(mut s: TcpStream, handler: &Arc<Mutex<Option<Handler>>>) {
     let _ = s.set_nodelay(true);
+    loop {
+        if !serve_one(&mut s, handler) || !KEEP_ALIVE.load(Ordering::SeqCst) {
+            break;
+        }
+    }
+    let _ = s.flush();
+    let _ = s.shutdown(std::net::Shutdown::Both);
+}
+
+/// Serves one request; false when the peer closed the connection or sent nothing usable.
+fn serve_one(s: &mut TcpStream, handler: &Arc<Mutex<Option<Handler>>>) -> bool {
+    let keep = KEEP_ALIVE.load(Ordering::SeqCst);
     let mut buf = Vec::new();
     let mut tmp = [0u8; 2048];
     loop {
         match s.read(&mut tmp) {
-            Ok(0) => return,
+            Ok(0) => return false,
             Ok(n) => {
                 buf.extend_from_slice(&tmp[..n]);
                 if buf.windows(4).any(|w| w == b"\r\n\r\n") {
                     break;
                 }
                 if buf.len() > 1 << 20 {
-                    return;
+                    return false;
                 }
             }
-            Err(_) => return,
+            Err(_) => return false,
         }
     }
     let head = String::from_utf8_lossy(&buf).to_string();
@@ -213,7 +234,10 @@ fn serve(mut s: TcpStream, handler: &Arc<Mutex<Option<Handler>>>) {
         out.push_str(&format!("{k}: {v}\r\n"));
     }
     let no_body = resp.status == 204 || resp.status == 304;
-    let framing = resp.framing.unwrap_or_else(default_framing);
+    let mut framing = resp.framing.unwrap_or_else(default_framing);
+    if keep && framing == Framing::Close {
+        framing = Framing::Length;
+    }
     if !no_body {
         match framing {
             Framing::Length => out.push_str(&format!("Content-Length: {}\r\n", resp.declared_len.unwrap_or(resp.body.len()))),
@@ -221,7 +245,7 @@ fn serve(mut s: TcpStream, handler: &Arc<Mutex<Option<Handler>>>) {
             Framing::Close => {}
         }
     }
-    out.push_str("Connection: close\r\n\r\n");
+    out.push_str(if keep && resp.truncate_at.is_none() { "Connection: keep-alive\r\n\r\n" } else { "Connection: close\r\n\r\n" });
     let _ = s.write_all(out.as_bytes());
     if !no_body {
         // the bytes that go on the wire after the head
@@ -259,7 +283,7 @@ fn serve(mut s: TcpStream, handler: &Arc<Mutex<Option<Handler>>>) {
         }
     }
     let _ = s.flush();
-    let _ = s.shutdown(std::net::Shutdown::Both);
+    keep && resp.truncate_at.is_none()
 }
 
 impl Sim {
@@ -276,7 +300,13 @@ impl Sim {
                     break;
                 }
                 if let Ok(s) = conn {
-                    serve(s, &h2);
+                    if KEEP_ALIVE.load(Ordering::SeqCst) {
+                        // an idle kept-alive connection must not block the accept loop
+                        let h3 = h2.clone();
+                        std::thread::spawn(move || serve(s, &h3));
+                    } else {
+                        serve(s, &h2);
+                    }
                 }
             }
         });
